@@ -199,6 +199,23 @@ class SimSocket:
             conn.server.on_bytes(conn)
         return k
 
+    def sendall(self, data):
+        data = bytes(data)
+        sent = 0
+        while sent < len(data):
+            k = self.send(data[sent:])
+            if k == 0:
+                # a blocking sendall never returns short: a transport that takes nothing more is a dead peer
+                raise BrokenPipeError(32, "Broken pipe")
+            sent += k
+        return None
+
+    def recv_into(self, buf, nbytes=0):
+        n = nbytes or len(buf)
+        data = self.recv(n)
+        buf[:len(data)] = data
+        return len(data)
+
     def _kill(self, how):
         conn = self.conn
         if conn.dead is None:
@@ -341,6 +358,14 @@ class SimSocketModule:
 
     def socket(self, family=_real_socket.AF_INET, type=_real_socket.SOCK_STREAM, proto=0):
         return SimSocket(self._net, family, type)
+
+    def create_connection(self, address, timeout=None, source_address=None, **kw):
+        s = self.socket(self.AF_INET, self.SOCK_STREAM)
+        if timeout is not None and not isinstance(timeout, type(_real_socket._GLOBAL_DEFAULT_TIMEOUT)):
+            s.settimeout(timeout)
+        host = self.gethostbyname(address[0])
+        s.connect((host, address[1]))
+        return s
 
     def gethostbyname(self, host):
         net = self._net
